@@ -1,4 +1,5 @@
 """C02 — any altered or foreign-key credential is rejected and discloses nothing."""
+import struct, time, os
 import base64, os
 import vlib, rig, credcorr, pyref, hostile
 
@@ -99,6 +100,22 @@ def run(ctx):
             for k in (1, 7, 8, 15, 16):
                 reject("truncate-padblock", body[:-k], name)
                 reject("extend-padblock", body + body[-k:], name)
+    # large interiors (several MAC/cipher update chunks): edits far behind the first 64 KiB, tails spliced between two credentials
+    bigs = []
+    for (c, m) in ((0, 5), (4, 5), (2, 3)) if not ctx.thorough else ((0, 5), (4, 5), (2, 3), (5, 6), (0, 2), (3, 4)):
+        for k in range(2):
+            r, diff = cr.encode_both(uid=1234, gid=5678, cipher=c, mac=m, zip_=0, data=bytes(rng.getrandbits(8) for _ in range(200000)))
+            if r and r["error_num"] == 0:
+                bigs.append(((c, m), hostile.unarmor(r["data"])))
+    for i, ((c, m), body) in enumerate(bigs):
+        name = "c%dm%d-200k" % (c, m)
+        for off in (66000, 70001, 131072 + 17, 180000, len(body) - 40, len(body) - 1):
+            x = bytearray(body); x[off] ^= 0x10
+            reject("bitflip-far", bytes(x), name)
+        other = [b for (cm, b) in bigs if cm == (c, m) and b is not body]
+        if other and len(other[0]) == len(body):
+            cut = 100000 - (100000 % 16) + (len(body) % 16)
+            reject("splice-far", body[:cut] + other[0][cut:], name)
     for b in bases:
         ctx.log("edits of", b["name"])
         body, n, name = b["body"], len(b["body"]), b["name"]
@@ -230,6 +247,51 @@ def run(ctx):
                     fails.append({"why": "daemon refuses its own credential (%s)" % vn})
         b.stop()
     a.stop()
+    # ... and in every phase of the daemon's life: requests still in progress when a graceful stop arrives are decoded under
+    # the same key.  A decode request is parked half-sent, SIGTERM is delivered, and once the daemon has logged that it is
+    # exiting the request is completed with a credential MAC'd under a subkey anybody can guess (all zero / all 0xff)
+    import socket as _sk, signal as _sg
+    for fill in (0x00, 0xFF):
+        dd = rig.Daemon(ctx, exe, tag="c02drain", key=key, nthreads=2)
+        if not dd.start():
+            break
+        forged = pyref.mint(b"", mac=5, mac_key=bytes([fill]) * 20, time0=int(time.time()), ttl=300, uid=0, gid=0, data=b"forged during shutdown")
+        body = rig.dec_req_body(forged)
+        raw = rig.hdr(rig.T_DEC_REQ, 0, len(body)) + body
+        ctl, st = rig.decode(dd.sock, forged)                        # control: while running normally
+        s_ = _sk.socket(_sk.AF_UNIX, _sk.SOCK_STREAM)
+        s_.connect(dd.sock)
+        s_.sendall(raw[:20])
+        time.sleep(0.1)
+        dd.p.send_signal(_sg.SIGTERM)
+        t0 = time.time()
+        while time.time() - t0 < 1.5 and b"Exiting on signal" not in open(os.path.join(dd.dir, "stderr"), "rb").read():
+            time.sleep(0.02)
+        s_.sendall(raw[20:])
+        s_.settimeout(5)
+        rep = b""
+        try:
+            while len(rep) < 11 or len(rep) < 11 + struct.unpack(">I", rep[7:11])[0]:
+                c_ = s_.recv(65536)
+                if not c_:
+                    break
+                rep += c_
+        except OSError:
+            pass
+        s_.close()
+        dd.stop()
+        ctx.count(("drain-forgery", fill))
+        dist["drain-forgery"] = dist.get("drain-forgery", 0) + 1
+        for what, ans in (("while the daemon runs", ctl), ("completed after SIGTERM, during the graceful drain", None)):
+            if ans is None and len(rep) > 11:
+                try:
+                    ans = rig.parse_dec_rsp(rep[11:])
+                except rig.ParseError:
+                    ans = None
+            if ans is not None and (ans["error_num"] in (0,) + SOFT or ans["data_len"] != 0):
+                fails.append({"why": "FORGED credential accepted: MAC computed under an all-0x%02x subkey (no knowledge of the key file), request %s: "
+                                     "error %d, payload %r, uid %d" % (fill, what, ans["error_num"], ans["data"][:30], ans["cred_uid"]),
+                              "cred_hex": forged.hex(), "kind": "drain-forgery"})
     # the statement holds whatever other clients do at the same time: genuine decodes race with altered copies
     import conc
     probs, rep, total = conc.forgery_race(ctx, exe, seconds=20.0 if ctx.thorough else 5.0, nthreads=2)
